@@ -6,11 +6,13 @@ from __future__ import annotations
 
 import importlib
 
-MODULES = ["pymath", "misc", "geom"]
+MODULES = ["pymath", "misc", "geom", "nptable"]
 
 
 def install(it):
     it.used_externals = set()
+    from .. import speclib
+    it.spec_funcs.update(speclib.SPEC_FUNCS)
     for m in MODULES:
         mod = importlib.import_module(f"pyvc.externals.{m}")
         for dotted, (fn, doc) in mod.HANDLERS.items():
